@@ -21,12 +21,16 @@ ASSUMPTIONS = ["set-up errors of special variants (owned by C13/C08) are discard
                "tolerance 1e-6*(1+largest bound) on the nodal sums (interior-point / HiGHS output)"]
 
 SPLITS = ["6h", "7h", "12h", "d", "2d"]
+# weighted towards assets whose variables own several mapping rows
+CLASSES = gen.CLASSES_ALL + ["chp", "chp", "plant", "multi", "transport", "transport", "coarse", "structured"]
 
 
 @st.composite
 def _strategy(draw):
-    spec = draw(gen.portfolios_all())
+    spec = draw(gen.portfolios_all(classes=CLASSES, max_T=draw(st.sampled_from([8, 12, 14]))))
     spec["split"] = draw(st.one_of(st.none(), st.none(), st.sampled_from(SPLITS)))
+    if draw(st.integers(0, 9)) < 3:
+        gen.rename_nodes(draw, spec)
     return spec
 
 
